@@ -67,6 +67,12 @@ def listenVariant (v : String) (c : C08.StackCfg) : Option LExpr :=
   else none
 
 def handle : List String → String
+  | ["size", ip, frac, mult] =>
+    -- SizeSuffix.Set: integer part, fraction digits (`~` = none), multiplier → bytes per second
+    let ds := if frac = "~" then some [] else frac.toList.mapM (fun c => if c.isDigit then some (c.toNat - 48) else none)
+    match natOf ip, ds, natOf mult with
+    | some i, some d, some m => toString (sizeOf i d m)
+    | _, _, _ => "bad-op"
   | ["burst", bw] =>
     match natOf bw with
     | some b => toString (burstOf b)
